@@ -38,7 +38,11 @@ const (
 	markers   = 3
 	originURL = "http://origin.sim"
 	maxSize   = 4 * datasize.KB
-	staleness = time.Hour
+	// Hash lists may be large enough to carry a line longer than the 64 KiB
+	// a line scanner takes.
+	hashMaxSize = 128 * datasize.KB
+	longLine    = 70_000
+	staleness   = time.Hour
 )
 
 var hashIDs = []filter.ID{filter.IDAdultBlocking, filter.IDSafeBrowsing, filter.IDNewRegDomains}
@@ -134,6 +138,10 @@ type lab struct {
 	// ever[res] are the complete contents ever published for a cache file.
 	ever map[string]map[string]int
 
+	// current is what the origin serves at the moment, per path.
+	current    map[string]string
+	currentVer map[string]int
+
 	// faults of the current round, per path.
 	roundFaults map[string]simhttp.Fault
 	faultsOn    bool
@@ -142,10 +150,26 @@ type lab struct {
 
 func (l *lab) publish(path, content string, ver int, cacheFile string) {
 	l.origin.Set(path, content)
+	if l.current == nil {
+		l.current, l.currentVer = map[string]string{}, map[string]int{}
+	}
+	l.current[path], l.currentVer[path] = content, ver
 	if l.ever[cacheFile] == nil {
 		l.ever[cacheFile] = map[string]int{}
 	}
 	l.ever[cacheFile][content] = ver
+}
+
+// publishedJunk notes that the origin serves the current content of path
+// followed by a line of n octets: a complete body as published, which a cache
+// file may hold although the list cannot be parsed from it.
+func (l *lab) publishedJunk(path string, n int) {
+	content, ver := l.current[path], l.currentVer[path]
+	cf := l.cacheFileOf(path)
+	if l.ever[cf] == nil {
+		l.ever[cf] = map[string]int{}
+	}
+	l.ever[cf][simhttp.LongLineBody(content, n)] = ver
 }
 
 func (l *lab) cacheFileOf(path string) string {
@@ -163,10 +187,10 @@ func (l *lab) cacheFileOf(path string) string {
 
 // storageOpts are the knobs of a storage under test.
 type storageOpts struct {
-	cacheMgr     agdcache.Manager
-	noResCaches  bool
-	replacement  string
-	safeSearch   bool
+	cacheMgr    agdcache.Manager
+	noResCaches bool
+	replacement string
+	safeSearch  bool
 }
 
 func (l *lab) newStorage(dir string) (st *filterstorage.Default, hs map[filter.ID]*hashprefix.Storage, hp map[filter.ID]*hashprefix.Filter) {
@@ -211,7 +235,7 @@ func (l *lab) newStorageOpts(dir string, o storageOpts) (st *filterstorage.Defau
 			CacheTTL:        time.Hour,
 			RefreshTimeout:  10 * time.Second,
 			CacheCount:      100,
-			MaxSize:         maxSize,
+			MaxSize:         hashMaxSize,
 		})
 		if err != nil {
 			panic(err)
@@ -511,17 +535,27 @@ func runC13(s *kernel.Sim, cfg string) {
 		case !l.faultsOn:
 		case cfg == "single":
 			if downloads-1 == singleAt {
-				f = simhttp.Fault(1 + t.Choose(8, "fault-kind"))
+				f = simhttp.Fault(1 + t.Choose(9, "fault-kind"))
 			}
 		case shortDeadline && t.Chance(1, 2, "stall-under-short-deadline"):
 			f = simhttp.Stall
 		case t.Chance(1, faultDen, "fault"):
-			f = simhttp.Fault(1 + t.Choose(8, "fault-kind"))
+			f = simhttp.Fault(1 + t.Choose(9, "fault-kind"))
 		}
 		param := 0
 		switch f {
 		case simhttp.Oversized:
 			param = int(maxSize) + 200
+			if strings.HasPrefix(path, "/hash/") {
+				param = int(hashMaxSize) + 200
+			}
+		case simhttp.LongLine:
+			// For a hash list the download succeeds and the parser fails;
+			// for everything else the body is over the size limit.
+			param = longLine
+			if strings.HasPrefix(path, "/hash/") {
+				l.publishedJunk(path, longLine)
+			}
 		case simhttp.CutBody, simhttp.SlowBody:
 			param = t.Choose(200, "fault-param")
 		}
